@@ -36,7 +36,7 @@ SQRT_EPS = np.sqrt(EPS)
 # generation
 # ---------------------------------------------------------------------------------------------------------
 def gen_paths(rng, tier):
-    npath = 32 if tier == 'quick' else 320
+    npath = 400 if tier == 'quick' else 4000
     paths = []
     for i in range(npath):
         paths.append(dict(
@@ -180,6 +180,7 @@ def _fit_at(prob, case, pygam, lam):
     if case['cls'] == 'GAM':
         kw.update(distribution='normal', link='identity')
     gam = getattr(pygam, case['cls'])(terms, **kw)
+    l2_before = getattr(gam, '_constraint_l2', None)
     status, out = fitgen.fit_quiet(gam, prob['X'], prob['y'], prob['w'])
     if status != 'ok':
         return dict(status=status, msg=out)
@@ -189,7 +190,10 @@ def _fit_at(prob, case, pygam, lam):
     return dict(status='ok', conv=('did not converge' not in out), coef=coef, edof=float(gam.statistics_['edof']),
                 P=_dense(gam.terms.build_penalties()), B=_dense(gam.terms.build_columns(prob['X'])),
                 mu=np.asarray(gam.predict_mu(prob['X']), dtype=float), muq=np.asarray(gam.predict_mu(prob['Xq']), dtype=float),
-                Bq=_dense(gam.terms.build_columns(prob['Xq'])), gam=gam)
+                Bq=_dense(gam.terms.build_columns(prob['Xq'])), gam=gam,
+                # `_cholesky` silently replaces the penalty by a more heavily ridged one when the factorisation of
+                # S + P fails by rounding (large lam); the fit is then not a fit of the specified model
+                fallback=(getattr(gam, '_constraint_l2', None) != l2_before))
 
 
 def _closed_form(B, A, wv, y):
@@ -212,11 +216,11 @@ def _null_fit(B, R, Pv, wv, y):
     Z = V[:, null]
     gmin = float(lamP[~null].min()) if (~null).any() else None
     if Z.shape[1] == 0:
-        return np.zeros(B.shape[1]), gmin, 0
+        return np.zeros(B.shape[1]), gmin, 0, float(np.linalg.norm(R, 2))
     G = B.T @ (wv[:, None] * B)
     NZ = Z.T @ (G + R) @ Z
     a = np.linalg.solve(NZ, Z.T @ (B.T @ (wv * y)))
-    return Z @ a, gmin, int(Z.shape[1])
+    return Z @ a, gmin, int(Z.shape[1]), float(np.linalg.eigvalsh((NZ + NZ.T) / 2).min())
 
 
 def _q(x):
@@ -274,49 +278,72 @@ def _worker(case):
         cond = float(ev.max() / max(ev.min(), 1e-300))
         bcf, condM = _closed_form(B, A, wv, y)
         mucf = B @ bcf
-        sc = 1.0 + np.abs(mu).max()
+        pos = wv > 0          # rows with zero weight are extrapolations: not protected by the stability of the LS fit
+        sc = 1.0 + np.abs(mu[pos]).max()
         grad = B.T @ (wv * (y - mu)) - A @ beta
         rhs = B.T @ (wv * y)
-        pts.append(dict(lam=lam, conv=f['conv'], edof=f['edof'], rss=rss, J=J, Rq=Rq, cond=cond, condM=condM,
-                        d_cf=float(np.abs(mu - mucf).max() / sc), d_lin=float(np.abs(f['P'] - (Pfix + lam * Pv)).max() / (1e-300 + np.abs(f['P']).max() + np.abs(Pfix).max())),
+        acc = _acc(condM, float(np.linalg.norm(A, 2)), float(np.linalg.norm(beta)), float(np.abs(mu[wv > 0]).max()))
+        pts.append(dict(lam=lam, conv=f['conv'], fallback=f['fallback'], acc=acc, edof=f['edof'], rss=rss, J=J, Rq=Rq, cond=cond, condM=condM,
+                        d_cf=float(np.abs(mu - mucf)[pos].max() / sc), d_lin=float(np.abs(f['P'] - (Pfix + lam * Pv)).max() / (1e-300 + np.abs(f['P']).max() + np.abs(Pfix).max())),
                         d_B=float(np.abs(B - B0).max()), d_mu=float(np.abs(B @ beta - mu).max() / sc),
                         be=float(np.linalg.norm(grad) / (np.linalg.norm(N, 2) * np.linalg.norm(beta) + np.linalg.norm(rhs) + 1e-300)),
                         bnorm2=float(beta @ beta), coef=beta, mu=mu, muq=f['muq'], A=A))
     res = dict(case=case, status='ok', desc=prob['desc'], varied=prob['varied'], n=n, m=m, pts=pts,
                other_pen=float(np.abs(Pfix).max()), pv_zero=bool(np.abs(Pv).max() == 0), pv_norm=float(np.linalg.norm(Pv, 2)), ynorm=float(np.sqrt(np.sum(wv * y * y))))
-    # ---- the limit: lam_big chosen from the spectrum so that theory puts the fit within ~1e-4 of the null-space fit
-    beta0, gmin, dim0 = _null_fit(B0, R, Pv, wv, y)
+    # ---- the limit.  lam_big = the largest of 1e10 … 1e3 at which (i) the problem is still well enough conditioned for a
+    # double-precision solve to mean something (100 eps cond(N) <= 1e-4) and (ii) the code does not fall back to a more
+    # heavily ridged penalty (`_cholesky`).  Whether that lam is "in the limit" is decided by mathematics alone: the NumPy
+    # closed form at lam_big must be within 1e-3 of the NumPy null-space fit, otherwise only the squeeze inequalities
+    # are judged.
+    beta0, gmin, dim0, mu0min = _null_fit(B0, R, Pv, wv, y)
     res['null_dim'] = dim0
     if gmin is not None:
-        gnorm = float(np.linalg.norm(G + R, 2))
-        lam_big = min(max(1e4 * gnorm / gmin, 1e6), 1e10)
-        f = _fit_at(prob, case, pygam, lam_big)
-        if f['status'] == 'ok':
+        mu0 = B0 @ beta0
+        F0 = float(np.sum(wv * (y - mu0) ** 2) + beta0 @ R @ beta0)
+        lim = None
+        nfb = 0
+        for lam_big in (1e10, 1e9, 1e8, 1e7, 1e6, 1e5, 1e4, 1e3):
+            Al = R + lam_big * Pv
+            bcf, condM = _closed_form(B0, Al, wv, y)
+            acc = _acc(condM, float(np.linalg.norm(Al, 2)), float(np.linalg.norm(bcf)), float(np.abs((B0 @ bcf)[wv > 0]).max()))
+            if acc > 1e-4:
+                continue
+            f = _fit_at(prob, case, pygam, lam_big)
+            if f['status'] != 'ok':
+                lim = dict(status=f['status'])
+                break
+            if f['fallback']:
+                nfb += 1
+                continue
             beta = f['coef']
-            mu0 = B0 @ beta0
-            F0 = float(np.sum(wv * (y - mu0) ** 2) + beta0 @ R @ beta0)
-            Fl = float(np.sum(wv * (y - f['mu']) ** 2) + beta @ R @ beta)
-            Jl = float(beta @ Pv @ beta)
-            dist2 = float(np.sum(wv * (f['mu'] - mu0) ** 2))
-            muq0 = f['Bq'] @ beta0
-            N = G + R + lam_big * Pv
-            ev = np.linalg.eigvalsh((N + N.T) / 2)
-            res['limit'] = dict(lam=lam_big, conv=f['conv'], F0=F0, Fl=Fl, Jl=Jl, dist2=dist2, rate=gnorm / (lam_big * gmin),
-                                d_train=float(np.abs(f['mu'] - mu0).max() / (1 + np.abs(mu0).max())),
-                                d_query=float(np.abs(f['muq'] - muq0).max() / (1 + np.abs(muq0).max())),
-                                edof=f['edof'], cond=float(ev.max() / max(ev.min(), 1e-300)), J0=float(beta0 @ Pv @ beta0))
+            pos = wv > 0
+            sc = 1 + np.abs(mu0[pos]).max()
+            lim = dict(lam=lam_big, conv=f['conv'], F0=F0, acc=acc, judge_query=bool(n >= 2 * m),
+                       Fl=float(np.sum(wv * (y - f['mu']) ** 2) + beta @ R @ beta), Jl=float(beta @ Pv @ beta),
+                       dist2=float(np.sum(wv * (f['mu'] - mu0) ** 2)),
+                       d_theory=float(np.abs(B0 @ bcf - mu0)[pos].max() / sc),
+                       d_train=float(np.abs(f['mu'] - mu0)[pos].max() / sc),
+                       d_query=float(np.abs(f['muq'] - f['Bq'] @ beta0).max() / (1 + np.abs(f['Bq'] @ beta0).max())),
+                       d_theory_q=float(np.abs(f['Bq'] @ bcf - f['Bq'] @ beta0).max() / (1 + np.abs(f['Bq'] @ beta0).max())),
+                       edof=f['edof'])
             if case['default_spline']:
-                # independent statement for the documented default: a weighted straight-line fit in x (plus the
-                # sqrt(eps) ridge, negligible): np.polyfit
+                # independent statement for the documented default: the weighted straight-line fit in x (np.polyfit)
                 x = prob['X'][:, 0]
                 keep = wv > 0
                 pc = np.polyfit(x[keep], y[keep], 1, w=np.sqrt(wv[keep]))
                 line = np.polyval(pc, x)
-                xq = prob['Xq'][:, 0]
-                res['limit']['d_line'] = float(np.abs(f['mu'] - line).max() / (1 + np.abs(line).max()))
-                res['limit']['d_line_q'] = float(np.abs(f['muq'] - np.polyval(pc, xq)).max() / (1 + np.abs(np.polyval(pc, xq)).max()))
-        else:
-            res['limit'] = dict(status=f['status'])
+                lq = np.polyval(pc, prob['Xq'][:, 0])
+                lim['d_line'] = float(np.abs(f['mu'] - line)[keep].max() / (1 + np.abs(line[keep]).max()))
+                lim['d_line_q'] = float(np.abs(f['muq'] - lq).max() / (1 + np.abs(lq).max()))
+            break
+        res['limit'] = lim
+        res['limit_fallbacks'] = nfb
+        # probe far beyond the grid (lam = 1e9): does the code still fit the specified model there?
+        f = _fit_at(prob, case, pygam, 1e9)
+        if f['status'] == 'ok':
+            bcf, _ = _closed_form(B0, R + 1e9 * Pv, wv, y)
+            res['probe'] = dict(fallback=bool(f['fallback']), d_cf=float(np.abs(f['mu'] - B0 @ bcf)[wv > 0].max() / (1 + np.abs(f['mu'][wv > 0]).max())),
+                                edof=f['edof'], edof_last=pts[-1]['edof'])
     # ---- driver operations: two points of the path
     if n * m <= 4000 and m <= 40:
         ops = []
@@ -336,10 +363,18 @@ def _worker(case):
 # ---------------------------------------------------------------------------------------------------------
 # judging
 # ---------------------------------------------------------------------------------------------------------
+def _acc(condM, normA, normb, mumax):
+    """relative accuracy to which the fitted values (and what is computed from them) of one fit can be trusted:
+    (i) the least-squares solve on M = [sqrt(W)B; E]: eps cond(M);
+    (ii) the Cholesky factor E of A = S + P carries an error ~ eps |A|, a perturbation of the penalty that moves the fitted
+        values by at most eps |A| |beta| max_v |Bv| / (|Bv|² + v'Av) <= eps |A| |beta| / (2 eps^(1/4))  (v'Av >= sqrt(eps));
+        measured on an exact rational reference: 8e-5 where this bound gives 2e-5 … 1e-4.
+    Floor 1e-9 as in DESIGN 3.4."""
+    return max(1e-9, 10 * EPS * condM, 10 * EPS * normA * normb / (2 * EPS ** 0.25 * (1 + mumax)))
+
+
 def _tol(p, q):
-    """relative accuracy to which fitted quantities of two path points can be trusted: the solve works on [R; E]
-    (condition sqrt(cond N)); 1e-9 floor as in DESIGN 3.4"""
-    return max(1e-9, 100 * EPS * max(p['condM'], q['condM']))
+    return max(p['acc'], q['acc'])
 
 
 def _judge_path(r):
@@ -347,8 +382,12 @@ def _judge_path(r):
     fails, literal = [], []
     pts = r['pts']
     pn = r['pv_norm']
+    r['judged_pairs'] = 0
     for a, b in zip(pts[:-1], pts[1:]):
         tau = _tol(a, b)
+        if tau > 1e-3 or a['fallback'] or b['fallback']:
+            continue
+        r['judged_pairs'] += 1
         t = 10 * tau                    # x10 safety margin
         Fa, Fb = a['rss'] + a['Rq'], b['rss'] + b['Rq']
         sF = max(abs(Fa), abs(Fb), r['ynorm'] ** 2) + 1e-300
@@ -371,10 +410,10 @@ def run(ctx):
     common.import_pygam()
     st_mono, st_lit, st_cf, st_lim, st_lin = 'path.monotone', 'path.rss-literal', 'path.closed-form', 'limit.null-space', 'penalty.linear-in-lam'
     st_quad, st_neq = 'model.quad', 'model.neq'
-    ctx.stream(st_mono, 'real fits along increasing lam (0, 1e-6…1e6; each penalty separately and jointly): edof non-increasing, RSS + fixed penalties non-decreasing, penalty value non-increasing (100 eps sqrt-cond tolerance)')
+    ctx.stream(st_mono, 'real fits along increasing lam (0, 1e-6…1e6; each penalty separately and jointly): edof non-increasing, RSS + fixed penalties non-decreasing, penalty value non-increasing (tolerance from the accuracy model of the solve; pairs above 1e-3 not judged)')
     ctx.stream(st_lit, 'the sentence as stated: weighted RSS non-decreasing — judged exactly where the theorem gives it (nothing else penalised but the sqrt(eps) ridge: slack = gain of the ridge term); with other penalties fixed it is false in general (counted, see rss_not_monotone_in_general)')
     ctx.stream(st_cf, 'fitted values at every lam (incl. lam = 0) == NumPy lstsq on the augmented system [sqrt(W)B; E]')
-    ctx.stream(st_lim, 'at a large lam (theoretical distance from the limit <= 1e-4) fitted values == NumPy WLS restricted to the null space of the varied penalty (np.polyfit line for the default spline); squeeze inequalities')
+    ctx.stream(st_lim, 'at the largest well-conditioned lam (1e3…1e10): squeeze inequalities against the NumPy null-space WLS fit; where that lam is in the limit regime fitted values == null-space fit (np.polyfit straight line for the default spline term)')
     ctx.stream(st_lin, 'build_penalties() is fixed part + lam x varied part along the path; model matrix independent of lam')
     ctx.stream(st_quad, 'Lean Penalty/Terms model: beta\'P beta of the varied penalty at the real coefficients == NumPy on the real build_penalties (1e-9)')
     ctx.stream(st_neq, 'Lean model (exact): weighted RSS, penalty value and residual of the model normal equations at the real coefficients on the exported matrices')
@@ -435,17 +474,24 @@ def run(ctx):
             if f2:
                 ctx.fail(st_mono, dict(kind='monotone', cls=case['cls'], varied=case['kind']), dict(path=case, n=r['n'], m=r['m'], varied=r['varied'], desc=r['desc']),
                          observed=f2[:4], expected='edof non-increasing, RSS + fixed penalties non-decreasing, penalty value non-increasing along increasing lam',
-                         oracle='sequence of real fits (tol 1e-10), tolerance 1000 eps cond([sqrt(W)B; E])')
+                         oracle='sequence of real fits (tol 1e-10), tolerance 10 x accuracy model (eps cond[sqrt(W)B; E], eps |A||beta| / 2 eps^(1/4))')
             else:
                 ctx.count('not reproduced on re-execution', 'monotone')
         # ---- closed form and linearity of the penalty
         ctx.case(st_cf, sig, nontrivial=nontriv)
         ctx.case(st_lin, sig, nontrivial=nontriv)
-        worst_cf = max(pts, key=lambda p: p['d_cf'] / max(1e-9, 100 * EPS * p['condM']))
-        tcf = 10 * max(1e-7, 100 * EPS * worst_cf['condM'])
-        with np.errstate(all='ignore'):
+        nfb = sum(1 for p in pts if p['fallback'])
+        if nfb:
+            ctx.count('suspected-defect', 'GAM._cholesky: factorisation of S + P fails by rounding at large lam and a ridge of ~1e-2 is silently added (fit no longer the specified model; _constraint_l2 mutated) — path points excluded', nfb)
+            ctx.count('cholesky fallback on the 1e-6…1e6 grid: smallest lam', _lb(min(p['lam'] for p in pts if p['fallback'])))
+        jp = [p for p in pts if p['acc'] <= 1e-3 and not p['fallback']]
+        ctx.count('path points judged (accuracy model <= 1e-3)', 'judged', len(jp))
+        ctx.count('path points judged (accuracy model <= 1e-3)', 'too ill-conditioned', len(pts) - len(jp))
+        worst_cf = max(jp, key=lambda p: p['d_cf'] / max(1e-7, p['acc'])) if jp else None
+        tcf = 10 * max(1e-7, worst_cf['acc']) if jp else 1.0
+        if jp:
             ctx.count('closed form: log10(diff / tol)', _lb(worst_cf['d_cf'] / tcf))
-        if worst_cf['d_cf'] > tcf:
+        if jp and worst_cf['d_cf'] > tcf:
             ctx.fail(st_cf, dict(kind='closed-form', cls=case['cls'], lam0=(worst_cf['lam'] == 0)), dict(path=case, lam=worst_cf['lam'], n=r['n'], m=r['m'], varied=r['varied']),
                      observed='fitted values differ from the penalised weighted least-squares solution by %.3g (relative) at lam = %.3g' % (worst_cf['d_cf'], worst_cf['lam']),
                      expected='fitted values of the penalised WLS problem (lam = 0: unpenalised WLS on the basis plus the sqrt(eps) ridge)', oracle='np.linalg.lstsq on [sqrt(W)B; E], E\'E = S + P')
@@ -454,11 +500,22 @@ def run(ctx):
         if dlin > 1e-12 or dB > 0:
             ctx.fail(st_lin, dict(kind='penalty-linear-in-lam'), dict(path=case, varied=r['varied']), observed=dict(max_rel_dev_penalty=dlin, max_dev_model_matrix=dB),
                      expected='build_penalties() = fixed + lam * varied; build_columns independent of lam', oracle='public build_penalties / build_columns at each lam')
+        pb = r.get('probe')
+        if pb:
+            ctx.count('probe at lam = 1e9', 'cholesky fallback (ridge added)' if pb['fallback'] else 'no fallback')
+            if pb['fallback']:
+                ctx.count('suspected-defect', 'GAM._cholesky: at lam = 1e9 the factorisation of S + P fails by rounding and a ridge ~1e-2 is silently added (fit is not the specified model, _constraint_l2 mutated)')
+                ctx.count('probe at lam = 1e9 with fallback: log10 relative distance of the fitted values from the closed form', _lb(pb['d_cf']))
+                if pb['edof'] < pb['edof_last'] - 1e-6 * (1 + pb['edof_last']):
+                    ctx.count('probe at lam = 1e9 with fallback', 'edof jumps below its value at lam = 1e6 by more than 1e-6')
         # ---- limit
         lim = r.get('limit')
+        if r.get('limit_fallbacks'):
+            ctx.count('suspected-defect', 'GAM._cholesky fallback at a large lam (1e4…1e10) that is otherwise well conditioned: ridge silently added, that lam skipped', r['limit_fallbacks'])
         if lim and 'F0' in lim and lim['conv']:
-            ctx.case(st_lim, sig, nontrivial=nontriv, sample=dict(path=case, lam_big=lim['lam'], d_train=lim['d_train'], rate=lim['rate']))
-            tl_ = 10 * max(1e-7, 100 * EPS * np.sqrt(lim['cond']))
+            ctx.case(st_lim, sig, nontrivial=nontriv, sample=dict(path=case, lam_big=lim['lam'], d_train=lim['d_train'], d_theory=lim['d_theory']))
+            ctx.count('limit: lam_big decade', _lb(lim['lam']))
+            tl_ = 10 * max(1e-7, 10 * lim['acc'])
             sF = max(abs(lim['F0']), r['ynorm'] ** 2) + 1e-300
             lbad = []
             if lim['Fl'] > lim['F0'] + tl_ * sF:
@@ -467,13 +524,21 @@ def run(ctx):
                 lbad.append('lam J = %.6g exceeds F(beta0) = %.6g' % (lim['lam'] * lim['Jl'], lim['F0']))
             if lim['dist2'] > (lim['F0'] - lim['Fl']) + tl_ * sF:
                 lbad.append('weighted distance² %.6g exceeds F(beta0) - F(beta_lam) = %.6g' % (lim['dist2'], lim['F0'] - lim['Fl']))
-            tdist = 10 * (10 * lim['rate'] + tl_)
-            if lim['d_train'] > tdist:
-                lbad.append('fitted values at lam = %.3g differ from the null-space fit by %.3g (relative) > %.3g' % (lim['lam'], lim['d_train'], tdist))
-            if 'd_line' in lim and lim['d_line'] > tdist + 1e-6:
-                lbad.append('default spline term at lam = %.3g is not the weighted straight-line fit: %.3g (relative)' % (lim['lam'], lim['d_line']))
-            with np.errstate(all='ignore'):
+            if lim['d_theory'] <= 1e-3 and lim['d_theory_q'] <= 1e-3:
+                ctx.count('limit', 'lam_big is in the limit regime (closed form within 1e-3 of the null-space fit): distance judged')
+                tdist = 10 * (lim['d_theory'] + tl_)
+                tdq = 10 * (lim['d_theory_q'] + tl_)
+                if not lim['judge_query']:
+                    tdq = float('inf')      # fewer than 2 rows per coefficient: query rows are extrapolations along weakly identified directions
+                if lim['d_train'] > tdist or lim['d_query'] > tdq:
+                    lbad.append('fitted values at lam = %.3g differ from the null-space fit by %.3g / %.3g (training / query, relative) > %.3g / %.3g' % (lim['lam'], lim['d_train'], lim['d_query'], tdist, tdq))
+                if 'd_line' in lim and (lim['d_line'] > tdist + 1e-6 or lim['d_line_q'] > tdq + 1e-6):
+                    lbad.append('default spline term at lam = %.3g is not the weighted straight-line fit: %.3g / %.3g (relative)' % (lim['lam'], lim['d_line'], lim['d_line_q']))
+                if 'd_line' in lim:
+                    ctx.count('limit', 'default spline term vs np.polyfit straight line judged')
                 ctx.count('limit: log10(distance / tolerance)', _lb(lim['d_train'] / tdist))
+            else:
+                ctx.count('limit', 'limit regime not reachable in double precision (squeeze inequalities only)')
             if lbad:
                 ctx.fail(st_lim, dict(kind='limit', cls=case['cls'], varied=case['kind']), dict(path=case, lam=lim['lam'], varied=r['varied'], n=r['n'], m=r['m']),
                          observed=lbad, expected='the weighted least-squares fit within the null space of the varied penalty (+ fixed penalties)', oracle='NumPy null-space WLS / np.polyfit; squeeze inequalities')
@@ -495,7 +560,7 @@ def run(ctx):
                     continue
                 rssm, qam, resm, rhsm = [float(Fraction(t.strip())) for t in o.split('|')]
                 sF = max(abs(rssm), r['ynorm'] ** 2) + 1e-300
-                t = 10 * max(1e-9, 100 * EPS * p['condM'])
+                t = 10 * p['acc']
                 if abs(rssm - p['rss']) > max(1e-9, t) * sF:
                     ctx.disagree(st_neq, sig, p['rss'], rssm, 'weighted RSS: predict_mu vs model matrix times coef in the model')
                 elif resm > max(1e-6, 10 * EPS * p['cond']) * 10 * (rhsm + 1e-300) and p['be'] <= 1e-7:
